@@ -353,7 +353,10 @@ def run_harness(h, src, logdir):
         cmd = kani_cmd(h, slot.dir, playback=False)
         logfile = os.path.join(logdir, h["name"] + ".log")
         rc, out, timed_out, wall = run_cmd(cmd, src, h["timeout"], h["mem_gb"], logfile=logfile)
-        if not timed_out and "VERIFICATION:- FAILED" in out and re.search(r"Status: FAILURE", out) \
+        pr1 = parse_kani_output(out)
+        real_fail = [f for f in pr1["failures"] if "unwinding assertion" not in f["description"]]
+        unw_fail = [f for f in pr1["failures"] if "unwinding assertion" in f["description"]]
+        if not timed_out and pr1["failed"] and real_fail and not unw_fail \
                 and not re.search(r"CBMC failed with status|ut of memory", out):
             # pass 2 only for failing harnesses: obtain the concrete counterexample as a unit test
             cmd2 = kani_cmd(h, slot.dir, playback=True)
